@@ -5,7 +5,7 @@
     C01/Model.v on the history [ops] (mutators and queries with arbitrary arguments) started from
     the empty table; [spec_run] are the outputs of the strictly sorted association list of
     C01/Spec.v.  [Ok] means: neither a panic nor fuel exhaustion. *)
-From Algo.C01 Require Import Model Spec Proofs.
+From Algo.C01 Require Import Model Spec ProofsRun ProofsRB Proofs.
 From Coq Require Import Permutation.
 Open Scope Z_scope.
 
@@ -70,6 +70,20 @@ Theorem C01_traversal_avl :
   exists t, build cmp AVL h = Ok t /\ Permutation (trav_list o t) (s_build cmp h).
 Proof. intros K V cmp TO h o. exact (avl_traversal cmp TO h o). Qed.
 
+(** Red-black, PARTIAL: proved for histories whose mutators are Put and DeleteAll (including the
+    histories inside Equal); all abstract queries are covered.  What is missing with respect to
+    [C01_full] at [i = RB]: histories containing Delete / DeleteMin / DeleteMax (moveRedLeft /
+    moveRedRight / balance on the way up).  Those are carried by the correspondence (every run
+    compares the Go code with the model on exhaustive and random delete histories) and by the
+    invariant checker [rb_check] of C15 evaluated on the implementation's node dump. *)
+Theorem C01_refines_rb_partial :
+  forall (K V : Type) (cmp : K -> K -> Z) (eqv : V -> V -> bool), TotalOrder cmp ->
+  forall ops : list (op K V),
+    forallb abstract_op ops = true ->
+    forallb (op_allowed put_only) ops = true ->
+    run cmp eqv RB ops = map Ok (spec_run cmp eqv ops).
+Proof. intros K V cmp eqv TO ops. exact (rb_run_ok_put cmp eqv TO ops). Qed.
+
 (** Non-vacuity: a 7-key history with a double rotation (AVL), colour flips (red-black), a
     successor-replacing delete, absent keys, on the three implementations and two comparators. *)
 Example C01_example :
@@ -93,3 +107,4 @@ Print Assumptions C01_traversal_bst.
 Print Assumptions C01_refines_avl.
 Print Assumptions C01_firstmatch_avl.
 Print Assumptions C01_traversal_avl.
+Print Assumptions C01_refines_rb_partial.
